@@ -214,7 +214,7 @@ def find_function_defs(src, name, sig=None):
     return res
 
 
-def extract_functions(path, specs, preamble="includes"):
+def extract_functions(path, specs, preamble="includes", auto_helpers=False):
     """specs: list of {"name":..., "sig": regex|None, "rename": newname|None}
     returns text: preamble (+ #line'd function texts).  must-fire: exactly one match each."""
     src = open(path, encoding="utf8", errors="replace").read()
@@ -241,12 +241,47 @@ def extract_functions(path, specs, preamble="includes"):
         out.append("\n")
     elif preamble == "none":
         pass
+    taken = []
     for sp in specs:
         defs = find_function_defs(src, sp["name"], sp.get("sig"))
         if len(defs) != 1:
             raise Undecided("extraction must-fire rule: %s in %s matched %d definitions (need exactly 1)"
                             % (sp["name"], path, len(defs)))
         s, bo, e = defs[0]
+        taken.append((s, e, sp["name"]))
+    if auto_helpers:
+        # follow the extracted text into the file's own helpers: static functions and object-like / function-like macros defined at
+        # file scope in the same file and named in text already taken (to a fixpoint), so that a helper introduced next to a function
+        # under contract is verified with it instead of stopping the check
+        blank = blank_comments_strings(src)
+        statics = {}
+        for m in re.finditer(r"(?m)^static\b[^;{}()=]*?\b([A-Za-z_]\w*)\s*\(", blank):
+            nm = m.group(1)
+            d = find_function_defs(src, nm)
+            if len(d) == 1:
+                statics[nm] = d[0]
+        macros = []
+        if preamble == "none":
+            for m in re.finditer(r"(?m)^[ \t]*#[ \t]*define[ \t]+([A-Za-z_]\w*)(?:[^\n]*\\\n)*[^\n]*\n", src):
+                macros.append((m.start(), m.end(), m.group(1)))
+        changed = True
+        while changed:
+            changed = False
+            body = " ".join(blank[a:b] for (a, b, _) in taken)
+            for nm, (s0, bo0, e0) in statics.items():
+                if any(t[2] == nm for t in taken):
+                    continue
+                if re.search(r"(?<![\w])" + re.escape(nm) + r"\s*\(", body):
+                    taken.append((s0, e0, nm))
+                    changed = True
+        body = " ".join(src[a:b] for (a, b, _) in taken)
+        for (a, b, nm) in macros:
+            inside = any(a >= t[0] and a < t[1] for t in taken)
+            if not inside and re.search(r"(?<![\w])" + re.escape(nm) + r"(?![\w])", body):
+                out.append('#line %d "%s"\n' % (src[:a].count("\n") + 1, path))
+                out.append(src[a:b])
+        taken.sort()
+    for (s, e, _nm) in taken:
         line = src[:s].count("\n") + 1
         text = src[s:e]
         out.append('#line %d "%s"\n' % (line, path))
@@ -315,7 +350,7 @@ class UnitBuild:
             IFACE_CHECKED["done"] = True
         # function-level extraction
         for ex in u.get("extract", []):
-            text = extract_functions(os.path.join(REPO, ex["file"]), ex["functions"], ex.get("preamble", "includes"))
+            text = extract_functions(os.path.join(REPO, ex["file"]), ex["functions"], ex.get("preamble", "includes"), ex.get("auto_helpers", False))
             for rw in ex.get("rewrites", []):
                 if "regex" in rw:       # syntactic pattern (robust against harmless edits of the surrounding text)
                     text, n = re.subn(rw["regex"], rw["to"], text)
